@@ -2,6 +2,7 @@
 C08 helper: subscriber-side actions preserve the invariant (part C: `subDropConn`).
 -/
 import Iox2.Proof.PubSubC08SubB
+import Iox2.Proof.ListLemmas
 set_option linter.unusedSimpArgs false
 set_option linter.unusedVariables false
 namespace Iox2.PubSub.C08
@@ -24,17 +25,20 @@ theorem subDropConn_noop {w : World} {s key : Nat} {S : Sub} (hS : getS w s = so
   unfold subDropConn
   rw [hS]; dsimp only; rw [hk]
 
-theorem dropKey_inv {cfg : Cfg} {w : World} {xs : Option Nat} {s : Nat} {hole : Option Nat}
+theorem dropKey_core {cfg : Cfg} {w w' : World} {xs : Option Nat} {s : Nat} {hole : Option Nat}
     (h : InvS cfg w xs s hole) {S : Sub} {p key : Nat} (hS : getS w s = some S)
-    (hk : abs S.storage key = some p) (hbor : connBorrow w p s = 0) (hnt : key ∉ S.tbr)
+    (hk : abs S.storage key = some p) (hbor : connBorrow w p s = 0)
+    (tbr' : List Nat) (htbr : ∀ k, k ∈ tbr' ↔ (k ∈ S.tbr ∧ k ≠ key)) (htnd : tbr'.Nodup)
+    (htlen : tbr'.length ≤ S.tbr.length)
     (hole' : Option Nat)
     (hcov : ∀ i : Nat, S.conns[i]? = some (some key) → some i = hole')
-    (hh : hole' = hole ∨ (hole = none ∧ ∃ i0 : Nat, hole' = some i0 ∧ S.conns[i0]? = some (some key))) :
-    InvS cfg (subDropConn w s key) xs s hole' ∧
-    getS (subDropConn w s key) s = some { S with storage := smRemove S.storage key } := by
+    (hh : hole' = hole ∨ (hole = none ∧ ∃ i0 : Nat, hole' = some i0 ∧ S.conns[i0]? = some (some key)))
+    (hfr : SFrame w w') (hu : ConnsUniq w')
+    (hgS : ∀ q, getS w' q = if q = s then some { S with tbr := tbr', storage := smRemove S.storage key }
+      else getS w q)
+    (hgC : ∀ a b, getC w' a b = if a = p ∧ b = s then (getC w p s).bind detR else getC w a b) :
+    InvS cfg w' xs s hole' := by
   have hSO : SubOK cfg w s S hole := by simpa using h.s s S hS
-  have hsm : smGet S.storage key = some p := by rw [smGet_eq hSO.stI]; exact hk
-  rw [subDropConn_eq hS hsm]
   obtain ⟨r1, r2, r3⟩ := smRemove_spec hSO.stI key
   obtain ⟨c, hc, hcr⟩ := hSO.hasConn key p hk
   have hcb : c.borrow = 0 := by rw [← connBorrow_of_getC hc]; exact hbor
@@ -46,15 +50,6 @@ theorem dropKey_inv {cfg : Cfg} {w : World} {xs : Option Nat} {s : Nat} {hole : 
     have h0 : S.held.filter (·.pid = p) = [] := List.length_eq_zero_iff.mp this.symm
     rw [List.filter_eq_nil_iff] at h0
     exact h0 hd hhd (by simpa using hpid)
-  have hgS : ∀ q, getS (detachReceiver (setS w s { S with storage := smRemove S.storage key }) p s) q =
-      if q = s then some { S with storage := smRemove S.storage key } else getS w q := by
-    intro q
-    rw [getS_of_subs (detachReceiver_subs _ _ _), getS_setS, hS]; rfl
-  have hgC : ∀ a b, getC (detachReceiver (setS w s { S with storage := smRemove S.storage key }) p s) a b =
-      if a = p ∧ b = s then (getC w p s).bind detR else getC w a b := by
-    intro a b; rw [detachReceiver_getC]; rfl
-  have hfr : SFrame w (detachReceiver (setS w s { S with storage := smRemove S.storage key }) p s) :=
-    SFrame.of_SStep (.trans (.setS _ _ _) (detachReceiver_S _ _ _))
   -- the old hole is still respected
   have hole_old : ∀ i : Nat, some i ≠ hole' → some i ≠ hole := by
     intro i hi
@@ -63,29 +58,28 @@ theorem dropKey_inv {cfg : Cfg} {w : World} {xs : Option Nat} {s : Nat} {hole : 
     · rw [e]; simp
   have hnotkey : ∀ i k : Nat, some i ≠ hole' → S.conns[i]? = some (some k) → k ≠ key := by
     intro i k hi hik e; subst e; exact hi (hcov i hik)
-  refine ⟨InvS.rebuild1 ((getC w p s).bind detR) h hS hfr
-    (detachReceiver_uniq (w := setS w s { S with storage := smRemove S.storage key }) (h.u.of_conns rfl) p s) hgS hgC ⟨rfl, rfl, rfl⟩ (fun _ _ => rfl) ?_ ?_ ?_, by rw [hgS]; simp⟩
+  refine InvS.rebuild1 ((getC w p s).bind detR) h hS hfr hu hgS hgC ⟨rfl, rfl, rfl⟩ (fun _ _ => rfl) ?_ ?_ ?_
   · intro c1 hc1 ha
     rw [hc] at hc1; cases hc1
     refine ⟨{ c with rAtt := false }, by simp [hc, detR, ha], ha, rfl⟩
   · intro c' hc'
     rw [hc] at hc'
     simp only [Option.bind_some] at hc'
-    exact (hCI.detR hc').transferS2 (S' := { S with storage := smRemove S.storage key }) (by
+    exact (hCI.detR hc').transferS2 (S' := { S with tbr := tbr', storage := smRemove S.storage key }) (by
         unfold detR at hc'; split at hc'
         · cases hc'; exact (getC_key hc).1
         · cases hc') hfr.pubs hS (by rw [hgS]; simp) rfl rfl
   · -- the subscriber record
-    refine ⟨r1, hSO.connsLen, fun ha => by rw [r2]; exact hSO.capEq ha, hSO.buf1, hSO.bufM, hSO.tbrNodup,
-      hSO.tbrLen, ?_, ?_, ?_, ?_, ?_, ?_, ?_, ?_, ?_, hSO.aliveEx⟩
-    · intro k hkt
-      have hne : k ≠ key := fun e => hnt (e ▸ hkt)
+    refine ⟨r1, hSO.connsLen, fun ha => by rw [r2]; exact hSO.capEq ha, hSO.buf1, hSO.bufM, htnd,
+      Nat.le_trans htlen hSO.tbrLen, ?_, ?_, ?_, ?_, ?_, ?_, ?_, ?_, ?_, hSO.aliveEx⟩
+    · intro k hkt'
+      obtain ⟨hkt, hne⟩ := (htbr k).1 hkt'
       show abs (smRemove S.storage key) k ≠ none
       rw [r3]; simp only [hne, if_false]; exact hSO.tbrIn k hkt
     · intro i k hi hik
       have hne := hnotkey i k hi hik
       obtain ⟨a1, a2⟩ := hSO.connKey i k (hole_old i hi) hik
-      refine ⟨?_, a2⟩
+      refine ⟨?_, fun hm => a2 ((htbr k).1 hm).1⟩
       show abs (smRemove S.storage key) k ≠ none
       rw [r3]; simp only [hne, if_false]; exact a1
     · intro i j k hi hj hik hjk
@@ -97,7 +91,7 @@ theorem dropKey_inv {cfg : Cfg} {w : World} {xs : Option Nat} {s : Nat} {hole : 
       · simp [hne] at hka'
       · simp only [hne, if_false] at hka'
         rcases hSO.cover k hka' with ht | ⟨i, hi, hik⟩
-        · exact .inl ht
+        · exact .inl ((htbr k).2 ⟨ht, hne⟩)
         · right
           refine ⟨i, ?_, hik⟩
           rcases hh with e | ⟨_, i0, e2, hi0⟩
@@ -133,8 +127,8 @@ theorem dropKey_inv {cfg : Cfg} {w : World} {xs : Option Nat} {s : Nat} {hole : 
         intro e; rw [e, hk] at h1; cases h1
         exact hnoheld hd hhd' rfl
       simp only [hne, if_false]; exact h1
-    · intro k hkt q Q hkq hQ
-      have hne : k ≠ key := fun e => hnt (e ▸ hkt)
+    · intro k hkt' q Q hkq hQ
+      obtain ⟨hkt, hne⟩ := (htbr k).1 hkt'
       have hkq' : abs (smRemove S.storage key) k = some q := hkq
       rw [r3] at hkq'; simp only [hne, if_false] at hkq'
       rw [hfr.pubs] at hQ
@@ -145,5 +139,79 @@ theorem dropKey_inv {cfg : Cfg} {w : World} {xs : Option Nat} {s : Nat} {hole : 
       rw [r3] at hkq'; simp only [hne, if_false] at hkq'
       rw [hfr.pubs]
       exact hSO.connSlot i k q (hole_old i hi) hik hkq'
+
+theorem setS_setS (w : World) (s : Nat) (a b : Sub) : setS (setS w s a) s b = setS w s b := by
+  unfold setS
+  simp only [List.map_map]
+  congr 1
+  apply List.map_congr_left
+  intro e _
+  simp only [Function.comp]
+  by_cases he : e.1 = s <;> simp [he]
+
+theorem dropKey_inv {cfg : Cfg} {w : World} {xs : Option Nat} {s : Nat} {hole : Option Nat}
+    (h : InvS cfg w xs s hole) {S : Sub} {p key : Nat} (hS : getS w s = some S)
+    (hk : abs S.storage key = some p) (hbor : connBorrow w p s = 0) (hnt : key ∉ S.tbr)
+    (hole' : Option Nat)
+    (hcov : ∀ i : Nat, S.conns[i]? = some (some key) → some i = hole')
+    (hh : hole' = hole ∨ (hole = none ∧ ∃ i0 : Nat, hole' = some i0 ∧ S.conns[i0]? = some (some key))) :
+    InvS cfg (subDropConn w s key) xs s hole' ∧
+    getS (subDropConn w s key) s = some { S with storage := smRemove S.storage key } := by
+  have hSO : SubOK cfg w s S hole := by simpa using h.s s S hS
+  have hsm : smGet S.storage key = some p := by rw [smGet_eq hSO.stI]; exact hk
+  rw [subDropConn_eq hS hsm]
+  have hgS : ∀ q, getS (detachReceiver (setS w s { S with storage := smRemove S.storage key }) p s) q =
+      if q = s then some { S with storage := smRemove S.storage key } else getS w q := by
+    intro q
+    rw [getS_of_subs (detachReceiver_subs _ _ _), getS_setS, hS]; rfl
+  refine ⟨dropKey_core h hS hk hbor S.tbr (fun k => ⟨fun hm => ⟨hm, fun e => hnt (e ▸ hm)⟩, fun hm => hm.1⟩)
+    hSO.tbrNodup (Nat.le_refl _) hole' hcov hh
+    (SFrame.of_SStep (.trans (.setS _ _ _) (detachReceiver_S _ _ _)))
+    (detachReceiver_uniq (w := setS w s { S with storage := smRemove S.storage key }) (h.u.of_conns rfl) p s)
+    hgS (fun a b => by rw [detachReceiver_getC]; rfl), by rw [hgS]; simp⟩
+
+/-- `to_be_removed` entry `i` is dropped: the erase of the list followed by `subDropConn` -/
+theorem evictTbr_inv {cfg : Cfg} {w : World} {xs : Option Nat} {s : Nat} {hole : Option Nat}
+    (h : InvS cfg w xs s hole) {S : Sub} {p key i : Nat} (hS : getS w s = some S)
+    (hi : S.tbr[i]? = some key) (hk : abs S.storage key = some p) (hbor : connBorrow w p s = 0) :
+    InvS cfg (subDropConn (setS w s { S with tbr := S.tbr.eraseIdx i }) s key) xs s hole ∧
+    getS (subDropConn (setS w s { S with tbr := S.tbr.eraseIdx i }) s key) s =
+      some { S with tbr := S.tbr.eraseIdx i, storage := smRemove S.storage key } := by
+  have hSO : SubOK cfg w s S hole := by simpa using h.s s S hS
+  have hsm : smGet S.storage key = some p := by rw [smGet_eq hSO.stI]; exact hk
+  have hS1 : getS (setS w s { S with tbr := S.tbr.eraseIdx i }) s = some { S with tbr := S.tbr.eraseIdx i } := by
+    simp [hS]
+  rw [subDropConn_eq hS1 hsm, setS_setS]
+  have hgS : ∀ q, getS (detachReceiver (setS w s { S with tbr := S.tbr.eraseIdx i, storage := smRemove S.storage key }) p s) q =
+      if q = s then some { S with tbr := S.tbr.eraseIdx i, storage := smRemove S.storage key } else getS w q := by
+    intro q
+    rw [getS_of_subs (detachReceiver_subs _ _ _), getS_setS, hS]; rfl
+  obtain ⟨hil, hget⟩ := List.getElem?_eq_some_iff.mp hi
+  have hmem : key ∈ S.tbr := List.mem_of_getElem? hi
+  have hperm := Iox2.ListLemmas.perm_eraseIdx S.tbr i key hi
+  have hnd2 : (S.tbr.eraseIdx i ++ [key]).Nodup := hperm.nodup_iff.mpr hSO.tbrNodup
+  have hnd3 := List.nodup_append.mp hnd2
+  have hmem_iff : ∀ k, k ∈ S.tbr.eraseIdx i ↔ (k ∈ S.tbr ∧ k ≠ key) := by
+    intro k
+    constructor
+    · intro hm
+      refine ⟨hperm.mem_iff.mp (by simp [hm]), fun e => ?_⟩
+      exact hnd3.2.2 k hm key (by simp) e
+    · rintro ⟨hm, hne⟩
+      have := hperm.mem_iff.mpr hm
+      simp at this
+      rcases this with h1 | h1
+      · exact h1
+      · exact absurd h1 hne
+  have hcov : ∀ j : Nat, S.conns[j]? = some (some key) → some j = hole := by
+    intro j hj
+    by_cases hjh : some j = hole
+    · exact hjh
+    · exact absurd hmem (hSO.connKey j key hjh hj).2
+  refine ⟨dropKey_core h hS hk hbor (S.tbr.eraseIdx i) hmem_iff hnd3.1 (by rw [List.length_eraseIdx]; split <;> omega) hole hcov (.inl rfl)
+    (SFrame.of_SStep (.trans (.setS _ _ _) (detachReceiver_S _ _ _)))
+    (detachReceiver_uniq (w := setS w s { S with tbr := S.tbr.eraseIdx i, storage := smRemove S.storage key })
+      (h.u.of_conns rfl) p s)
+    hgS (fun a b => by rw [detachReceiver_getC]; rfl), by rw [hgS]; simp⟩
 
 end Iox2.PubSub.C08
